@@ -532,6 +532,8 @@ def argv(opt, src):
         a += ['--test-path', src]
     else:
         a += ['--path', src]
+    for p in opt.get('package') or []:
+        a += ['-s', p]
     for p in opt.get('t') or []:
         a += ['-t', p]
     for p in opt.get('m') or []:
